@@ -16,6 +16,7 @@ import (
 	"net/url"
 	"os"
 	"sort"
+	"strconv"
 	"strings"
 	"sync"
 	"sync/atomic"
@@ -28,6 +29,7 @@ type Res struct {
 	Kind      string   `json:"kind"`                 // html | json | m3u8 | bin | redirect | status
 	Status    int      `json:"status,omitempty"`     // status kind: the code answered; redirect kind: 301/302/303/307/308
 	Loc       string   `json:"loc,omitempty"`        // redirect target
+	LocForm   int      `json:"loc_form,omitempty"`   // how the Location header spells a same-host target: 0 absolute, 1 "/path?query", 2 relative to the directory of the answering URL
 	Assets    []string `json:"assets,omitempty"`     // embedded resources (html: img src, json: string values, m3u8: segments)
 	Links     []string `json:"links,omitempty"`      // html: <a href>; json: string values without a file extension (queued as outlinks)
 	HdrLinks  []string `json:"hdr_links,omitempty"`  // html: URLs announced in a Link response header (rel=next ...)
@@ -35,20 +37,40 @@ type Res struct {
 	FailKind  int      `json:"fail_kind,omitempty"`  // ... with this status (0 = transport error); -1 = always fail
 	ErrKind   int      `json:"err_kind,omitempty"`   // which transport error a failing attempt returns (see transportErrors)
 	BodyErr   bool     `json:"body_err,omitempty"`   // the 200 answer's body breaks off half-way with a read error
+	Challenge bool     `json:"challenge,omitempty"`  // status 403 only: a Cloudflare challenge page (header cf-mitigated: challenge) - discarded and retried like a 5xx
 }
 
 // Site maps the URL text as requested on the wire to its resource. Unknown URLs answer 404.
 type Site map[string]*Res
 
+// Get looks a URL up. Besides the listed resources every host has an endless redirect trap (the session-id / calendar
+// kind): http://host/trap<form>/n<k> answers 302 to .../n<k+1>, spelled in Location form <form> (see Res.LocForm). Only
+// the redirect limit ends a walk into it.
+func (s Site) Get(u string) *Res {
+	if r, ok := s[u]; ok {
+		return r
+	}
+	if i := strings.Index(u, "/trap"); i > 0 && strings.HasPrefix(u, "http://") && !strings.Contains(u[len("http://"):i], "/") {
+		rest := u[i+len("/trap"):]
+		if len(rest) >= 4 && rest[0] >= '0' && rest[0] <= '2' && rest[1:3] == "/n" {
+			if k, err := strconv.Atoi(rest[3:]); err == nil && k >= 0 {
+				return &Res{Kind: "redirect", Status: 302, Loc: fmt.Sprintf("%s/trap%c/n%d", u[:i], rest[0], k+1), LocForm: int(rest[0] - '0')}
+			}
+		}
+	}
+	return nil
+}
+
 // Fetch is one request seen by the simulated network.
 type Fetch struct {
-	Seq     int64  `json:"seq"`
-	URL     string `json:"url"`
-	Host    string `json:"host"`
-	Attempt int    `json:"attempt"`
-	Status  int    `json:"status"`  // 0 = transport error
-	AtMs    int64  `json:"at_ms"`   // (virtual) time of the request, ms since the network was created
-	DoneMs  int64  `json:"done_ms"` // time the answer was handed back (later than at_ms when the harness held the request)
+	Seq       int64  `json:"seq"`
+	URL       string `json:"url"`
+	Host      string `json:"host"`
+	Attempt   int    `json:"attempt"`
+	Status    int    `json:"status"`              // 0 = transport error
+	AtMs      int64  `json:"at_ms"`               // (virtual) time of the request, ms since the network was created
+	DoneMs    int64  `json:"done_ms"`             // time the answer was handed back (later than at_ms when the harness held the request)
+	Challenge bool   `json:"challenge,omitempty"` // the answer was a challenge page (403 + cf-mitigated: challenge)
 }
 
 // Net is the in-memory network: an http.RoundTripper over a Site with a global, totally ordered fetch log.
@@ -97,6 +119,30 @@ var transportErrors = []error{
 	timeoutErr{},
 }
 
+// locText spells a redirect target the way the resource's LocForm asks for (same-host targets only; everything else,
+// and everything that does not parse, is sent as it is).
+func locText(from *url.URL, loc string, form int) string {
+	if form == 0 || loc == "" {
+		return loc
+	}
+	t, err := url.Parse(loc)
+	if err != nil || t.Host != from.Host || t.Scheme != from.Scheme || t.Fragment != "" {
+		return loc
+	}
+	if form == 2 {
+		fd, td := from.EscapedPath(), t.EscapedPath()
+		fi, ti := strings.LastIndexByte(fd, '/'), strings.LastIndexByte(td, '/')
+		if fi >= 0 && ti >= 0 && fd[:fi] == td[:ti] && td[ti+1:] != "" && !strings.Contains(td[ti+1:], ":") {
+			out := td[ti+1:]
+			if t.RawQuery != "" {
+				out += "?" + t.RawQuery
+			}
+			return out
+		}
+	}
+	return t.RequestURI()
+}
+
 type timeoutErr struct{}
 
 func (timeoutErr) Error() string   { return "verifsim: i/o timeout" }
@@ -113,7 +159,7 @@ func (n *Net) RoundTrip(req *http.Request) (*http.Response, error) {
 	n.reqs[req.URL] = struct{}{} // (kept referenced, so an address is never reused within a case)
 	n.attempts[u]++
 	att := n.attempts[u]
-	r := n.site[u]
+	r := n.site.Get(u)
 	status := 404
 	var body []byte
 	hdr := http.Header{}
@@ -129,13 +175,16 @@ func (n *Net) RoundTrip(req *http.Request) (*http.Response, error) {
 				if status == 0 {
 					status = 302
 				}
-				hdr.Set("Location", r.Loc)
+				hdr.Set("Location", locText(req.URL, r.Loc, r.LocForm))
 				body = []byte("moved")
 				hdr.Set("Content-Type", "text/plain")
 			case "status":
 				status = r.Status
 				body = []byte("<html><body>status page</body></html>")
 				hdr.Set("Content-Type", "text/html")
+				if r.Challenge && status == 403 {
+					hdr.Set("cf-mitigated", "challenge")
+				}
 			default:
 				status = 200
 				body, hdr = render(r)
@@ -156,6 +205,7 @@ func (n *Net) RoundTrip(req *http.Request) (*http.Response, error) {
 	if fail && status == 0 {
 		f.Status = 0
 	}
+	f.Challenge = !fail && hdr.Get("cf-mitigated") == "challenge"
 	n.log = append(n.log, f)
 	n.mu.Unlock()
 	if fail && status == 0 {
